@@ -1350,10 +1350,11 @@ evbuffer_remove_buffer(struct evbuffer *src, struct evbuffer *dst,
 
 	/* we know that there is more data in the src buffer than
 	 * we want to read, so we manually drain the chain */
-	evbuffer_add(dst, chain->buffer + chain->misalign, datlen);
-	chain->misalign += datlen;
-	chain->off -= datlen;
-	nread += datlen;
+	if (evbuffer_add(dst, chain->buffer + chain->misalign, datlen) == 0) {
+		chain->misalign += datlen;
+		chain->off -= datlen;
+		nread += datlen;
+	}
 
 	/* You might think we would want to increment dst->n_add_for_cb
 	 * here too.  But evbuffer_add above already took care of that.
